@@ -282,4 +282,265 @@ theorem count_filter_not_mem (opts kept : List Str) (o : Str) (ho : o ∈ opts) 
     have : kept.count o = 0 := List.count_eq_zero.2 hk
     omega
 
+/-! ## UTF-8 round trip -/
+
+theorem char_range (c : Char) : c.toNat < 0xD800 ∨ (0xDFFF < c.toNat ∧ c.toNat < 0x110000) := c.valid
+
+theorem decRun_cons (st : DSt) (b : Nat) (t : List Nat) :
+    decRun st (b :: t) = (feedByte st b).1 ++ decRun (feedByte st b).2 t := rfl
+
+theorem dec1 (b0 : Nat) (rest : List Nat) (h0 : b0 < 0x80) :
+    decRun .idle (b0 :: rest) = Char.ofNat b0 :: decRun .idle rest := by
+  simp [decRun_cons, feedByte, DSt.idle, startByte, h0]
+
+theorem dec2 (b0 b1 : Nat) (rest : List Nat) (h0 : 0xC2 ≤ b0 ∧ b0 ≤ 0xDF) (h1 : 0x80 ≤ b1 ∧ b1 ≤ 0xBF) :
+    decRun .idle (b0 :: b1 :: rest) = Char.ofNat ((b0 - 0xC0) * 64 + (b1 - 0x80)) :: decRun .idle rest := by
+  have a1 : ¬ b0 < 0x80 := by omega
+  simp [decRun_cons, feedByte, DSt.idle, startByte, a1, h0, h1]
+
+theorem dec3 (b0 b1 b2 : Nat) (rest : List Nat) (h0 : 0xE0 ≤ b0 ∧ b0 ≤ 0xEF)
+    (h1 : 0x80 ≤ b1 ∧ b1 ≤ 0xBF) (hE0 : b0 = 0xE0 → 0xA0 ≤ b1) (hED : b0 = 0xED → b1 ≤ 0x9F)
+    (h2 : 0x80 ≤ b2 ∧ b2 ≤ 0xBF) :
+    decRun .idle (b0 :: b1 :: b2 :: rest)
+      = Char.ofNat ((b0 - 0xE0) * 4096 + (b1 - 0x80) * 64 + (b2 - 0x80)) :: decRun .idle rest := by
+  have a1 : ¬ b0 < 0x80 := by omega
+  have a2 : ¬ (0xC2 ≤ b0 ∧ b0 ≤ 0xDF) := by omega
+  by_cases c1 : b0 = 0xE0
+  · have := hE0 c1
+    subst c1
+    have r : 0xA0 ≤ b1 ∧ b1 ≤ 0xBF := by omega
+    simp [decRun_cons, feedByte, DSt.idle, startByte, r, h2] <;> (refine congrArg Char.ofNat ?_; omega)
+  · by_cases c2 : b0 = 0xED
+    · have := hED c2
+      subst c2
+      have r : 0x80 ≤ b1 ∧ b1 ≤ 0x9F := by omega
+      simp [decRun_cons, feedByte, DSt.idle, startByte, r, h2] <;> (refine congrArg Char.ofNat ?_; omega)
+    · have r : 0xE1 ≤ b0 ∧ b0 ≤ 0xEF := by omega
+      simp [decRun_cons, feedByte, DSt.idle, startByte, a1, a2, c1, c2, r, h1, h2] <;> (refine congrArg Char.ofNat ?_; omega)
+
+theorem dec4 (b0 b1 b2 b3 : Nat) (rest : List Nat) (h0 : 0xF0 ≤ b0 ∧ b0 ≤ 0xF4)
+    (h1 : 0x80 ≤ b1 ∧ b1 ≤ 0xBF) (hF0 : b0 = 0xF0 → 0x90 ≤ b1) (hF4 : b0 = 0xF4 → b1 ≤ 0x8F)
+    (h2 : 0x80 ≤ b2 ∧ b2 ≤ 0xBF) (h3 : 0x80 ≤ b3 ∧ b3 ≤ 0xBF) :
+    decRun .idle (b0 :: b1 :: b2 :: b3 :: rest)
+      = Char.ofNat ((b0 - 0xF0) * 262144 + (b1 - 0x80) * 4096 + (b2 - 0x80) * 64 + (b3 - 0x80))
+          :: decRun .idle rest := by
+  have a1 : ¬ b0 < 0x80 := by omega
+  have a2 : ¬ (0xC2 ≤ b0 ∧ b0 ≤ 0xDF) := by omega
+  have a3 : ¬ (0xE1 ≤ b0 ∧ b0 ≤ 0xEF) := by omega
+  have a4 : ¬ b0 = 0xE0 := by omega
+  have a5 : ¬ b0 = 0xED := by omega
+  by_cases c1 : b0 = 0xF0
+  · have := hF0 c1
+    subst c1
+    have r : 0x90 ≤ b1 ∧ b1 ≤ 0xBF := by omega
+    simp [decRun_cons, feedByte, DSt.idle, startByte, r, h2, h3] <;> (refine congrArg Char.ofNat ?_; omega)
+  · by_cases c2 : b0 = 0xF4
+    · have := hF4 c2
+      subst c2
+      have r : 0x80 ≤ b1 ∧ b1 ≤ 0x8F := by omega
+      simp [decRun_cons, feedByte, DSt.idle, startByte, r, h2, h3] <;> (refine congrArg Char.ofNat ?_; omega)
+    · have r : 0xF1 ≤ b0 ∧ b0 ≤ 0xF3 := by omega
+      simp [decRun_cons, feedByte, DSt.idle, startByte, a1, a2, a3, a4, a5, c1, c2, r, h1, h2, h3] <;> (refine congrArg Char.ofNat ?_; omega)
+
+theorem decRun_enc (c : Char) (rest : List Nat) :
+    decRun .idle (utf8Enc c ++ rest) = c :: decRun .idle rest := by
+  have hv := char_range c
+  have hc := Char.ofNat_toNat c
+  generalize hn : c.toNat = n at hv hc
+  have e : ∀ m, m = n → Char.ofNat m = c := fun m h => h ▸ hc
+  unfold utf8Enc
+  rw [hn]
+  simp only
+  by_cases h1 : n < 0x80
+  · rw [if_pos h1]
+    simp only [List.cons_append, List.nil_append]
+    rw [dec1 _ _ h1, hc]
+  · rw [if_neg h1]
+    by_cases h2 : n < 0x800
+    · rw [if_pos h2]
+      simp only [List.cons_append, List.nil_append]
+      rw [dec2 _ _ _ (by omega) (by omega), e _ (by omega)]
+    · rw [if_neg h2]
+      by_cases h3 : n < 0x10000
+      · rw [if_pos h3]
+        simp only [List.cons_append, List.nil_append]
+        rw [dec3 _ _ _ _ (by omega) (by omega) (by omega) (by omega) (by omega), e _ (by omega)]
+      · rw [if_neg h3]
+        simp only [List.cons_append, List.nil_append]
+        rw [dec4 _ _ _ _ _ (by omega) (by omega) (by omega) (by omega) (by omega) (by omega), e _ (by omega)]
+
+theorem decRun_encAll (p : Str) : decRun .idle (utf8EncAll p) = p := by
+  induction p with
+  | nil => rfl
+  | cons c cs ih => rw [utf8EncAll, decRun_enc, ih]
+
+
+/-! ## `unescape_git_path` against git's quoting -/
+
+theorem runU_cons (st : USt) (c : Char) (t : Str) :
+    runU st (c :: t) = (stepU st c).1 ++ runU (stepU st c).2 t := rfl
+
+theorem runU_plain (c : Char) (rest : Str) (h : c ≠ '\\') :
+    runU .normal (c :: rest) = utf8Enc c ++ runU .normal rest := by
+  simp [runU_cons, stepU, stepNormal, h]
+
+theorem runU_letter (d : Char) (b : Nat) (rest : Str) (h : letterEscape d = some b) :
+    runU .normal ('\\' :: d :: rest) = b :: runU .normal rest := by
+  simp [runU_cons, stepU, stepNormal, h]
+
+theorem octVal_octDigit (d : Nat) (h : d < 8) : octVal (octDigit d) = some d := by
+  have : d = 0 ∨ d = 1 ∨ d = 2 ∨ d = 3 ∨ d = 4 ∨ d = 5 ∨ d = 6 ∨ d = 7 := by omega
+  rcases this with rfl | rfl | rfl | rfl | rfl | rfl | rfl | rfl <;> decide
+
+theorem letterEscape_octDigit (d : Nat) : letterEscape (octDigit d) = none := by
+  unfold octDigit
+  split <;> decide
+
+theorem isDigit_octDigit (d : Nat) : isDigit (octDigit d) = true := by
+  unfold octDigit
+  split <;> decide
+
+theorem runU_oct3 (v : Nat) (rest : Str) :
+    runU (.oct 3 v) rest = octByte v ++ runU .normal rest := by
+  cases rest with
+  | nil => simp [runU, finishU]
+  | cons c t => simp [runU_cons, stepU, runU_plain, List.append_assoc]
+
+theorem runU_octal (b : Nat) (rest : Str) (hb : b ≤ 255) :
+    runU .normal ('\\' :: (octal3 b ++ rest)) = b :: runU .normal rest := by
+  have h1 : b / 64 < 8 := by omega
+  have h2 : b / 8 % 8 < 8 := by omega
+  have h3 : b % 8 < 8 := by omega
+  have hv : (b / 64 * 8 + b / 8 % 8) * 8 + b % 8 = b := by omega
+  simp only [octal3, List.cons_append, List.nil_append]
+  rw [runU_cons]
+  simp only [stepU, stepNormal, if_true, List.nil_append]
+  rw [runU_cons]
+  simp only [stepU, letterEscape_octDigit, isDigit_octDigit, octVal_octDigit _ h1, if_true, List.nil_append]
+  rw [runU_cons]
+  simp only [stepU, show (1 : Nat) < 3 by omega, if_true, octVal_octDigit _ h2, List.nil_append]
+  rw [runU_cons]
+  simp only [stepU, show (1 + 1 : Nat) < 3 by omega, if_true, octVal_octDigit _ h3, List.nil_append]
+  rw [runU_oct3, hv]
+  simp [octByte, hb]
+
+
+theorem runU_octals (bs : List Nat) (rest : Str) (hb : ∀ b ∈ bs, b ≤ 255) :
+    runU .normal (bs.flatMap (fun b => '\\' :: octal3 b) ++ rest) = bs ++ runU .normal rest := by
+  induction bs with
+  | nil => rfl
+  | cons b t ih =>
+    simp only [List.flatMap_cons, List.append_assoc, List.cons_append]
+    rw [runU_octal b _ (hb b (by simp)), ih (fun x hx => hb x (by simp [hx]))]
+
+theorem utf8Enc_le (c : Char) : ∀ b ∈ utf8Enc c, b ≤ 255 := by
+  have hv := char_range c
+  unfold utf8Enc
+  intro b hb
+  simp only at hb
+  split at hb
+  · simp at hb; omega
+  · split at hb
+    · simp at hb; omega
+    · split at hb
+      · simp at hb; omega
+      · simp at hb; omega
+
+theorem utf8Enc_ascii (c : Char) (h : c.toNat < 0x80) : utf8Enc c = [c.toNat] := by
+  simp [utf8Enc, h]
+
+theorem char_eq_of_toNat (c : Char) (n : Nat) (h : c.toNat = n) : c = Char.ofNat n := by
+  rw [← h, Char.ofNat_toNat]
+
+theorem runU_quoteChar (qp : Bool) (c : Char) (rest : Str) :
+    runU .normal (quoteChar qp c ++ rest) = utf8Enc c ++ runU .normal rest := by
+  unfold quoteChar
+  simp only
+  split
+  · rename_i h; rw [utf8Enc_ascii c (by omega), h]; exact runU_letter _ _ _ (by decide)
+  split
+  · rename_i h; rw [utf8Enc_ascii c (by omega), h]; exact runU_letter _ _ _ (by decide)
+  split
+  · rename_i h; rw [utf8Enc_ascii c (by omega), h]; exact runU_letter _ _ _ (by decide)
+  split
+  · rename_i h; rw [utf8Enc_ascii c (by omega), h]; exact runU_letter _ _ _ (by decide)
+  split
+  · rename_i h; rw [utf8Enc_ascii c (by omega), h]; exact runU_letter _ _ _ (by decide)
+  split
+  · rename_i h; rw [utf8Enc_ascii c (by omega), h]; exact runU_letter _ _ _ (by decide)
+  split
+  · rename_i h; rw [utf8Enc_ascii c (by omega), h]; exact runU_letter _ _ _ (by decide)
+  split
+  · rename_i h; subst h; exact runU_letter _ _ _ (by decide)
+  split
+  · rename_i h; subst h; exact runU_letter _ _ _ (by decide)
+  split
+  · rename_i h
+    have hlt : c.toNat < 0x80 := by
+      simp only [Bool.or_eq_true, decide_eq_true_eq] at h; omega
+    rw [utf8Enc_ascii c hlt]
+    simp only [List.cons_append]
+    exact runU_octal _ _ (by omega)
+  split
+  · exact runU_octals _ _ (utf8Enc_le c)
+  · rename_i h1 h2 h3 h4 h5 h6 h7 h8 h9 h10 h11
+    exact runU_plain c rest h9
+
+theorem unescBody_quoteBody (qp : Bool) (p : Str) : unescBody (quoteBody qp p) = utf8EncAll p := by
+  unfold unescBody
+  induction p with
+  | nil => rfl
+  | cons c cs ih => rw [quoteBody, runU_quoteChar, ih, utf8EncAll]
+
+
+theorem getLast?_append_singleton (l : Str) (c : Char) : (l ++ [c]).getLast? = some c := by
+  simp
+
+theorem unescape_gitQuote (qp : Bool) (p : Str) : unescape (gitQuote qp p) = p := by
+  unfold gitQuote
+  split
+  · -- quoted
+    unfold unescape
+    have h1 : ¬ ((('"' :: quoteBody qp p ++ ['"']).length < 2) = true) := by
+      simp
+    have hh : ('"' :: quoteBody qp p ++ ['"']).head? = some '"' := rfl
+    have hl : ('"' :: quoteBody qp p ++ ['"']).getLast? = some '"' := by
+      exact getLast?_append_singleton _ _
+    simp only [hh, hl, ne_eq, not_true_eq_false, decide_false, Bool.or_false]
+    rw [if_neg (by simpa using h1)]
+    have : ('"' :: quoteBody qp p ++ ['"']).tail.dropLast = quoteBody qp p := by
+      simp [List.dropLast_concat]
+    rw [this, unescBody_quoteBody]
+    exact decRun_encAll p
+  · -- nothing to escape: the path does not start with a quote
+    rename_i hany
+    unfold unescape
+    have hq : p.head? ≠ some '"' := by
+      intro hp
+      cases p with
+      | nil => simp at hp
+      | cons c cs =>
+        simp only [List.head?_cons, Option.some.injEq] at hp
+        subst hp
+        exact hany (by simp [needsEscape])
+    simp [hq]
+
+/-! ## `resolve_command_base_dir` -/
+
+theorem resolveBaseDir_append (cwd b : Str) (g1 g2 : List Str) (h : resolveBaseDir cwd g1 = .ok b) :
+    resolveBaseDir cwd (g1 ++ g2) = resolveBaseDir b g2 := by
+  fun_induction resolveBaseDir cwd g1 with
+  | case1 cwd => simp only [Except.ok.injEq] at h; subst h; rfl
+  | case2 cwd => simp at h
+  | case3 cwd p rest' ih =>
+    simp only [List.cons_append]
+    rw [resolveBaseDir.eq_def]
+    simp only [if_true]
+    exact ih h
+  | case4 cwd a rest hne ih =>
+    simp only [List.cons_append]
+    rw [resolveBaseDir.eq_def]
+    simp only [hne, if_false]
+    exact ih h
+
 end GitAi.Profile
